@@ -47,8 +47,15 @@ impl<'w> FnTr<'w> {
             Expr::Unary(u) => match u.op {
                 UnOp::Deref(_) => self.tr_expr(&u.expr, exp),
                 UnOp::Not(_) => {
-                    let x = self.tr_expr(&u.expr, Some(&RTy::Bool))?;
-                    if x.ty != RTy::Bool { return Err(self.err(e, "`!` is only supported on bool")); }
+                    let x = self.tr_expr(&u.expr, match exp { Some(RTy::U64) => Some(&RTy::U64), _ => Some(&RTy::Bool) });
+                    // `!0` with an untyped literal where a bool was guessed
+                    let x = match x { Ok(x) => x, Err(m) => if exp.is_none() && self.bits { self.tr_expr(&u.expr, Some(&RTy::U64)).map_err(|_| m)? } else { return Err(m) } };
+                    if x.ty == RTy::U64 {
+                        let mut r = Ex::pure(format!("~~~{}", x.a()), RTy::U64);
+                        r.pure = x.pure;
+                        return Ok(r);
+                    }
+                    if x.ty != RTy::Bool { return Err(self.err(e, "`!` is only supported on bool (and on u64 in bit-manipulating functions)")); }
                     let mut r = Ex::pure(format!("!{}", x.a()), RTy::Bool);
                     r.pure = x.pure;
                     if let Some(p) = &x.prop { r.prop = Some(format!("¬ ({})", p)); }
@@ -83,9 +90,21 @@ impl<'w> FnTr<'w> {
             }
             Expr::Cast(c) => {
                 let target = self.resolve_type(&c.ty)?;
+                if target == RTy::U64 {
+                    let x = self.tr_expr(&c.expr, if is_untyped(&c.expr) { Some(&target) } else { None })?;
+                    let mut r = match &x.ty {
+                        RTy::U64 => x.clone(),
+                        RTy::Int(_) => Ex::pure(format!("u64OfInt {}", x.a()), RTy::U64),
+                        RTy::Bool => Ex::pure(format!("u64OfBool {}", x.a()), RTy::U64),
+                        _ => return Err(self.err(e, "unsupported cast source type")),
+                    };
+                    r.pure = x.pure;
+                    return Ok(r);
+                }
                 let tt = self.int_of(e, &target)?;
                 let x = self.tr_expr(&c.expr, if is_untyped(&c.expr) { Some(&target) } else { None })?;
                 let mut r = match &x.ty {
+                    RTy::U64 => Ex::pure(format!("cast {} (u64ToInt {})", tt.lean(), x.a()), target.clone()),
                     RTy::Int(_) => Ex::pure(format!("cast {} {}", tt.lean(), x.a()), target.clone()),
                     RTy::Bool => Ex::pure(format!("ofBool {}", x.a()), target.clone()),
                     RTy::Char => Ex::pure(format!("cast {} (ofChar {})", tt.lean(), x.a()), target.clone()),
@@ -106,6 +125,28 @@ impl<'w> FnTr<'w> {
                 }
             }
             Expr::Tuple(t) if t.elems.is_empty() => Ok(Ex::atom("()", RTy::Unit)),
+            Expr::Tuple(t) => {
+                let exps: Vec<Option<RTy>> = match exp { Some(RTy::Tuple(ts)) if ts.len() == t.elems.len() => ts.iter().map(|x| Some(x.clone())).collect(), _ => t.elems.iter().map(|_| None).collect() };
+                let mut xs = vec![];
+                for (el, ex) in t.elems.iter().zip(exps.iter()) { xs.push(self.tr_expr(el, ex.as_ref())?); }
+                // nested actions are evaluated left to right, like the Rust
+                let mut r = Ex::atom(format!("({})", xs.iter().map(|x| x.text.clone()).collect::<Vec<_>>().join(", ")), RTy::Tuple(xs.iter().map(|x| x.ty.clone()).collect()));
+                r.pure = xs.iter().all(|x| x.pure);
+                Ok(r)
+            }
+            // `unsafe { e }`: every operation inside must still be in the mapping table (unchecked accesses are translated
+            // as checked ones)
+            Expr::Unsafe(u) => {
+                let b = Expr::Block(syn::ExprBlock { attrs: vec![], label: None, block: u.block.clone() });
+                let (lines, ty) = self.tr_ctl_value(&b, exp)?;
+                match compress(&lines) {
+                    Some(t) => Ok(Ex::pure(t, ty)),
+                    None => match lines.as_slice() {
+                        [l] if !l.starts_with("pure ") && !l.starts_with("let ") => Ok(Ex::monadic(l.clone(), ty)),
+                        _ => Err(self.err(e, "`unsafe` block with statements inside another expression is unsupported (bind it with `let` first)")),
+                    },
+                }
+            }
             Expr::Try(_) => Err(self.err(e, "`?` is only supported as the outermost operator of a `let` initialiser")),
             Expr::Closure(_) => Err(self.err(e, "closure outside a supported combinator")),
             Expr::Macro(_) => Err(self.err(e, "macro invocation")),
@@ -116,6 +157,11 @@ impl<'w> FnTr<'w> {
     fn tr_lit<T: syn::spanned::Spanned + quote::ToTokens>(&mut self, node: &T, lit: &Lit, exp: Option<&RTy>, neg: bool) -> Res<Ex> {
         match lit {
             Lit::Int(i) => {
+                if (i.suffix().is_empty() && exp == Some(&RTy::U64)) || (i.suffix() == "u64" && self.bits) {
+                    let v: u128 = i.base10_parse().map_err(|_| self.err(node, "integer literal too large"))?;
+                    if neg && v != 0 || !IntTy::U64.fits_nonneg(v) { return Err(self.err(node, "literal out of range for u64")); }
+                    return Ok(Ex::atom(format!("({} : UInt64)", v), RTy::U64));
+                }
                 let ty = if i.suffix().is_empty() {
                     match exp {
                         Some(RTy::Int(t)) => *t,
@@ -255,7 +301,7 @@ impl<'w> FnTr<'w> {
             let (fi, fty) = info.fields.iter().enumerate().find(|(_, (n, _))| n == seg).map(|(i, (_, t))| (i, t.clone()))
                 .ok_or_else(|| self.err(node, &format!("struct `{}` has no field `{}`", cur, seg)))?;
             key = key * 100 + fi + 1;
-            ty = resolve_type(self.world, &fty, Some(&cur)).map_err(|m| self.err(node, &format!("field `{}.{}`: {}", cur, seg, m)))?;
+            ty = self.resolve_field_type(&fty, &cur).map_err(|m| self.err(node, &format!("field `{}.{}`: {}", cur, seg, m)))?;
             if k + 1 < segs.len() {
                 match &ty { RTy::Flat(n) => cur = n.clone(), _ => return Err(self.err(node, &format!("field `{}.{}` is not a registered struct", cur, seg))) }
             }
@@ -288,7 +334,29 @@ impl<'w> FnTr<'w> {
         Some((var, idx, sname, fields.join(".")))
     }
 
+    /// type of a field of a VALUE of the regenerated struct `sname` (as declared in the Lean structure)
+    pub fn struct_field_type(&self, fty: &syn::Type, sname: &str) -> Result<RTy, String> {
+        let bits = self.world.structs.get(sname).map(|s| s.bits).unwrap_or(false);
+        let t = resolve_type_s(self.world, fty, Some(sname), &std::collections::HashMap::new(), bits)?;
+        Ok(match t { RTy::VecFn(el) => RTy::VecList(el), t => t })
+    }
+
     fn tr_field(&mut self, e: &Expr, f: &syn::ExprField) -> Res<Ex> {
+        if let syn::Member::Unnamed(ix) = &f.member {
+            let base = self.tr_expr(&f.base, None)?;
+            if let RTy::Tuple(ts) = &base.ty {
+                let k = ix.index as usize;
+                if k >= ts.len() { return Err(self.err(e, "tuple index out of range")); }
+                // Lean tuples are right-nested pairs
+                let mut t = base.a();
+                for _ in 0..k { t = format!("{}.2", t); }
+                if k + 1 < ts.len() { t = format!("{}.1", t); }
+                let mut r = Ex::atom(t, ts[k].clone());
+                r.pure = base.pure;
+                return Ok(r);
+            }
+            return Err(self.err(e, "tuple field of a value that is not a tuple"));
+        }
         let field = match &f.member { syn::Member::Named(i) => i.to_string(), _ => return Err(self.err(e, "tuple field")) };
         if let Some((var, idx, sname, path)) = self.flat_chain(e) {
             return self.flat_field(e, &var, idx, &sname, &path);
@@ -298,7 +366,7 @@ impl<'w> FnTr<'w> {
             let info = self.world.structs.get(s).unwrap();
             let fty = info.fields.iter().find(|(n, _)| *n == field).map(|(_, t)| t.clone())
                 .ok_or_else(|| self.err(e, &format!("struct `{}` has no field `{}`", s, field)))?;
-            let ty = resolve_type(self.world, &fty, Some(s)).map_err(|m| self.err(e, &m))?;
+            let ty = self.struct_field_type(&fty, s).map_err(|m| self.err(e, &m))?;
             let mut r = Ex::atom(format!("{}.{}", base.a(), lean_ident(&field)), ty);
             r.pure = base.pure;
             return Ok(r);
@@ -308,8 +376,9 @@ impl<'w> FnTr<'w> {
 
     fn tr_binary(&mut self, e: &Expr, b: &syn::ExprBinary, exp: Option<&RTy>) -> Res<Ex> {
         #[derive(PartialEq)]
-        enum K { Arith(&'static str), DivRem(&'static str), Shift(&'static str), Cmp(&'static str), EqNe(bool), And, Or }
+        enum K { Arith(&'static str), DivRem(&'static str), Shift(&'static str), Cmp(&'static str), EqNe(bool), And, Or, Bit(&'static str) }
         let k = match b.op {
+            BinOp::BitAnd(_) => K::Bit("&&&"), BinOp::BitOr(_) => K::Bit("|||"), BinOp::BitXor(_) => K::Bit("^^^"),
             BinOp::Add(_) => K::Arith("+"), BinOp::Sub(_) => K::Arith("-"), BinOp::Mul(_) => K::Arith("*"),
             BinOp::Div(_) => K::DivRem("div"), BinOp::Rem(_) => K::DivRem("rem"),
             BinOp::Shl(_) => K::Shift("shl"), BinOp::Shr(_) => K::Shift("shr"),
@@ -319,6 +388,15 @@ impl<'w> FnTr<'w> {
             _ => return Err(self.err(e, "unsupported binary operator")),
         };
         match k {
+            K::Bit(op) => {
+                // bit operators: only on `u64` = `UInt64` (bit-manipulating functions)
+                let want = RTy::U64;
+                let (l, r) = self.operands(&b.left, &b.right, Some(&want))?;
+                if l.ty != RTy::U64 || r.ty != RTy::U64 { return Err(self.err(e, &format!("bit operator on {} and {} (only u64 in a function marked `bits` is supported)", l.ty.rust(), r.ty.rust()))); }
+                let mut x = Ex::pure(format!("{} {} {}", l.a(), op, r.a()), RTy::U64);
+                x.pure = l.pure && r.pure;
+                Ok(x)
+            }
             K::And | K::Or => {
                 let l = self.tr_expr(&b.left, Some(&RTy::Bool))?;
                 // the right operand is translated in its own frame: if it can panic it must only run when needed
@@ -343,8 +421,8 @@ impl<'w> FnTr<'w> {
                 let (l, r) = self.operands(&b.left, &b.right, None)?;
                 if l.ty != r.ty { return Err(self.err(e, &format!("comparison of {} with {}", l.ty.rust(), r.ty.rust()))); }
                 match (&k, &l.ty) {
-                    (K::Cmp(_), RTy::Int(_)) | (K::Cmp(_), RTy::Char) => {}
-                    (K::EqNe(_), RTy::Int(_)) | (K::EqNe(_), RTy::Char) | (K::EqNe(_), RTy::Bool) | (K::EqNe(_), RTy::Enum(_)) => {}
+                    (K::Cmp(_), RTy::Int(_)) | (K::Cmp(_), RTy::Char) | (K::Cmp(_), RTy::U64) => {}
+                    (K::EqNe(_), RTy::U64) | (K::EqNe(_), RTy::Int(_)) | (K::EqNe(_), RTy::Char) | (K::EqNe(_), RTy::Bool) | (K::EqNe(_), RTy::Enum(_)) => {}
                     _ => return Err(self.err(e, &format!("comparison unsupported at type {}", l.ty.rust()))),
                 }
                 let op = match k { K::Cmp(o) => o, K::EqNe(true) => "=", _ => "≠" };
@@ -357,6 +435,10 @@ impl<'w> FnTr<'w> {
             K::Arith(op) => {
                 let (l, r) = self.operands(&b.left, &b.right, exp)?;
                 if l.ty != r.ty { return Err(self.err(e, &format!("arithmetic on {} and {}", l.ty.rust(), r.ty.rust()))); }
+                if l.ty == RTy::U64 {
+                    let f = match op { "+" => "u64Add", "-" => "u64Sub", _ => "u64Mul" };
+                    return Ok(Ex::monadic(format!("{} {} {}", f, l.a(), r.a()), RTy::U64));
+                }
                 let t = self.int_of(e, &l.ty)?;
                 Ok(Ex::monadic(format!("chk {} ({} {} {})", t.lean(), l.a(), op, r.a()), l.ty))
             }
@@ -368,8 +450,13 @@ impl<'w> FnTr<'w> {
             }
             K::Shift(f) => {
                 let l = self.tr_expr(&b.left, exp)?;
-                let t = self.int_of(e, &l.ty)?;
                 let r = self.tr_expr(&b.right, if is_untyped(&b.right) { Some(&RTy::Int(IntTy::I32)) } else { None })?;
+                if l.ty == RTy::U64 {
+                    // the shift amount may have any integer type; `none` = amount not in 0..64 (panic)
+                    let amount = match &r.ty { RTy::U64 => format!("(u64ToInt {})", r.a()), RTy::Int(_) => r.a(), _ => return Err(self.err(e, "shift amount is not an integer")) };
+                    return Ok(Ex::monadic(format!("{} {} {}", if f == "shl" { "u64Shl" } else { "u64Shr" }, l.a(), amount), RTy::U64));
+                }
+                let t = self.int_of(e, &l.ty)?;
                 self.int_of(e, &r.ty)?;
                 Ok(Ex::monadic(format!("{} {} {} {}", f, t.lean(), l.a(), r.a()), l.ty))
             }
@@ -397,6 +484,26 @@ impl<'w> FnTr<'w> {
             2 => (Some(segs[0].clone()), segs[1].clone()),
             _ => return Err(self.err(e, "unsupported struct literal path")),
         };
+        // `Self { .. }` / `T { .. }` of the flattened self struct (constructor): the tuple of all fields in declaration order
+        if let (None, Some(sn)) = (&en, self.self_struct.clone()) {
+            if (variant == "Self" || variant == sn) && self.world.structs.get(&sn).map(|i| i.lean_module.is_none()).unwrap_or(false) {
+                let decl = self.world.structs[&sn].fields.clone();
+                let mut vals: Vec<(String, Ex)> = vec![];
+                for fv in &s.fields {
+                    let fname = match &fv.member { syn::Member::Named(i) => i.to_string(), _ => return Err(self.err(e, "tuple struct literal")) };
+                    let fty = decl.iter().find(|(n, _)| *n == fname).map(|(_, t)| t.clone()).ok_or_else(|| self.err(e, "unknown field"))?;
+                    let fty = self.resolve_field_type(&fty, &sn).map_err(|m| self.err(e, &m))?;
+                    let x = self.tr_expr(&fv.expr, Some(&fty))?;
+                    if !x.ty.compat(&fty) { return Err(self.err(e, &format!("field `{}`: expected {}, found {}", fname, fty.rust(), x.ty.rust()))); }
+                    if !x.pure { return Err(self.err(e, "struct literal with a panicking field initialiser (bind it with `let` first)")); }
+                    if vals.iter().any(|(n, _)| *n == fname) { return Err(self.err(e, "field given twice")); }
+                    vals.push((fname, x));
+                }
+                if vals.len() != decl.len() { return Err(self.err(e, "wrong number of fields")); }
+                let parts: Vec<String> = decl.iter().map(|(n, _)| vals.iter().find(|(m, _)| m == n).unwrap().1.text.clone()).collect();
+                return Ok(Ex::atom(crate::stmt::tuple(&parts), RTy::Flat(sn)));
+            }
+        }
         let (en, fields) = self.find_variant(e, en.as_deref(), &variant)?.ok_or_else(|| self.err(e, "struct literal of an unregistered type / variant"))?;
         if fields.len() != s.fields.len() { return Err(self.err(e, "wrong number of fields")); }
         let mut args = vec![];
